@@ -163,7 +163,7 @@ class TmpAdapter:
 
 
 class FilePoolAdapter:
-    MODES = {1: "r", 2: "w", 3: "a"}
+    MODES = {1: "r", 2: "w", 3: "a", 4: "rb", 5: "wb", 6: "ab"}
 
     def __init__(self, f):
         self.f = f
